@@ -57,6 +57,38 @@ fn hex(b: &[u8]) -> String {
     o
 }
 
+/// Pointers stored in a constant allocation from byte `from` on: [[offset relative to `from`, hex of the target bytes
+/// (at most 256, starting at the pointed-to offset)], ..] - lets the rule layer read string literals held in constant
+/// tables such as `[(&str, Enum); N]`.
+fn relocs_json<'tcx>(tcx: TyCtxt<'tcx>, a: &rustc_middle::mir::interpret::Allocation, from: usize) -> String {
+    let mut s = String::from("[");
+    let mut first = true;
+    for (off, prov) in a.provenance().ptrs().iter() {
+        let o = off.bytes() as usize;
+        if o < from || o + 8 > a.len() {
+            continue;
+        }
+        if let Some(rustc_middle::mir::interpret::GlobalAlloc::Memory(t)) = tcx.try_get_global_alloc(prov.alloc_id()) {
+            let t = t.inner();
+            let raw = a.inspect_with_uninit_and_ptr_outside_interpreter(o..o + 8);
+            let mut ob = [0u8; 8];
+            ob.copy_from_slice(raw);
+            let toff = u64::from_le_bytes(ob) as usize;
+            if toff <= t.len() {
+                let end = std::cmp::min(t.len(), toff + 256);
+                let tb = t.inspect_with_uninit_and_ptr_outside_interpreter(toff..end);
+                if !first {
+                    s.push(',');
+                }
+                first = false;
+                let _ = write!(s, "[{},\"{}\"]", o - from, hex(tb));
+            }
+        }
+    }
+    s.push(']');
+    s
+}
+
 fn tys<'tcx>(t: Ty<'tcx>) -> String {
     with_no_trimmed_paths!(format!("{}", t))
 }
@@ -821,6 +853,9 @@ impl rustc_driver::Callbacks for Cb {
                     if a.len() <= (1 << 20) {
                         let b = a.inspect_with_uninit_and_ptr_outside_interpreter(0..a.len());
                         let _ = write!(entry, ",\"bytes\":\"{}\"", hex(b));
+                        if !a.provenance().ptrs().is_empty() && a.len() <= 65536 {
+                            let _ = write!(entry, ",\"relocs\":{}", relocs_json(tcx, a, 0));
+                        }
                     }
                 }
                 Some((None, Some(cv))) => match cv {
@@ -845,6 +880,9 @@ impl rustc_driver::Callbacks for Cb {
                             if o <= a.len() && a.len() <= (1 << 20) {
                                 let b = a.inspect_with_uninit_and_ptr_outside_interpreter(o..a.len());
                                 let _ = write!(entry, ",\"bytes\":\"{}\"", hex(b));
+                                if !a.provenance().ptrs().is_empty() && a.len() <= 65536 {
+                                    let _ = write!(entry, ",\"relocs\":{}", relocs_json(tcx, a, o));
+                                }
                             }
                         }
                     }
